@@ -490,6 +490,7 @@ type object struct {
 	txIndex int
 	node    *cborx.Node // tree with offsets into bytes
 	bytes   []byte
+	sibling []byte // another corpus object of the same kind and era (receiver reuse across DIFFERENT objects)
 }
 
 // standaloneTx assembles the stand-alone wire form of transaction i of a block.
@@ -544,6 +545,9 @@ func (m *mon) checkObject(o *object, v variant, r *core.Rand) {
 			ib := o.node.Encode()
 			m.reuse(j, hdr, ib, x, false, hid, j.headerHash(bt, x))
 			m.reuse(j, hdr, x, ib, true, hid, j.headerHash(bt, ib))
+			if o.sibling != nil {
+				m.reuse(j, hdr, o.sibling, x, ident, hid, j.headerHash(bt, x))
+			}
 		})
 		m.done(j, true)
 	case "tx":
@@ -618,6 +622,9 @@ func (m *mon) checkObject(o *object, v variant, r *core.Rand) {
 				m.reuse(j, tx, ib, x, false, tid, h256(gt.Body.Slice(x)))
 				m.reuse(j, tx, x, ib, true, tid, h256(in.Items[0].Slice(ib)))
 			}
+			if o.sibling != nil {
+				m.reuse(j, tx, o.sibling, x, ident, tid, h256(gt.Body.Slice(x)))
+			}
 		})
 		m.done(j, true)
 	case "body":
@@ -649,6 +656,9 @@ func (m *mon) checkObject(o *object, v variant, r *core.Rand) {
 			ibb := o.node.Encode()
 			m.reuse(j, body, ibb, x, false, bid, h256(x))
 			m.reuse(j, body, x, ibb, true, bid, h256(ibb))
+			if o.sibling != nil {
+				m.reuse(j, body, o.sibling, x, ident, bid, h256(x))
+			}
 			if on := tree.MapGet(1); on != nil {
 				outs := body.Outputs()
 				if len(outs) == len(on.Items) {
@@ -760,6 +770,15 @@ func run(c *core.Ctx) {
 			for k := 0; k < len(outs) && k < maxOut; k++ {
 				ob := outs[k].Slice(b.Cbor)
 				objs = append(objs, &object{kind: "output", block: b, txIndex: i, node: cborx.Raw(ob), bytes: ob})
+			}
+		}
+		// link every object to the next object of its kind in this block
+		for i, o := range objs {
+			for k := 1; k < len(objs); k++ {
+				if p := objs[(i+k)%len(objs)]; p.kind == o.kind && !bytes.Equal(p.bytes, o.bytes) {
+					o.sibling = p.bytes
+					break
+				}
 			}
 		}
 		for _, o := range objs {
